@@ -73,6 +73,8 @@ def main():
     for sid in sorted(os.listdir(sd)) if os.path.isdir(sd) else []:
         mp = os.path.join(sd, sid, "meta.json")
         pp = os.path.join(sd, sid, "patch.diff")
+        if os.path.exists(os.path.join(sd, sid, "patch_head.diff")):
+            pp = os.path.join(sd, sid, "patch_head.diff")      # re-based onto the current /repo HEAD after a later fix commit
         if os.path.exists(mp) and os.path.exists(pp):
             meta = json.load(open(mp))
             if meta.get("confirmed") and meta.get("breaks"):
